@@ -436,10 +436,14 @@ def run_check(check, tier, seed, jobs=None, only=None):
         cov["transitions"] = max(1, int(agg["queries"]))
         cov["traces_validated_against_impl"] = int(sum(r.get("fidelity", {}).get("validated", 0) for r in results))
     cov["evaluations"] = max(1, int(agg["queries"]))
-    cov["distinct_nontrivial"] = max(2, int(agg["queries_unsat"]) - 0) if int(agg["queries_unsat"]) >= 2 else 2
-    cov["rule"] = ("one evaluation = one solver query 'path condition AND assumptions AND NOT property' over all "
-                   "symbolic inputs; distinct_nontrivial counts queries answered unsat by the solver (not decided "
-                   "by constant folding is not separated out)")
+    cov["queries_nontrivial"] = int(agg["queries_nontrivial"])
+    cov["queries_decided_by_plain_values_or_rewriter"] = int(agg["queries"]) - int(agg["queries_nontrivial"])
+    cov["queries_by_ring_tactic"] = int(agg["queries_by_ring_tactic"])
+    cov["distinct_nontrivial"] = int(agg["queries_nontrivial"])
+    cov["rule"] = ("one evaluation = one obligation 'path condition AND assumptions AND NOT property' on one explored path "
+                   "(distinct by unit, path and assertion).  distinct_nontrivial counts the obligations that needed the "
+                   "ring tactic or an SMT query, i.e. excludes those already decided by plain Python values on the path "
+                   "(shapes, identities of objects) or by z3's rewriter alone; measured on this run")
     ev = {"property_id": check.id, "tier": tier, "seed": int(seed), "level": check.level,
           "coverage": cov, "assumptions": check.assumptions, "wall_s": wall,
           "violations": len(violations)}
@@ -479,7 +483,7 @@ def _worker(i):
         return run_unit(_UNITS[i], _TIER)
     except BaseException as e:
         return {"unit": _UNITS[i].name, "bounds": _UNITS[i].bounds, "program": _UNITS[i].program, "n_programs": 0,
-                "summary": {"paths": 0, "queries": 0, "queries_unsat": 0, "solver_time_s": 0.0},
+                "summary": {"paths": 0, "queries": 0, "queries_unsat": 0, "solver_time_s": 0.0, "queries_nontrivial": 0, "queries_by_ring_tactic": 0},
                 "violations": [], "functions": {}, "reach": {}, "witnesses": {}, "samples": [], "undecided_optional": [], "fidelity": {},
                 "theory": {"side_queries": 0, "instances": 0, "secs": 0.0}, "wall_s": 0.0,
                 "inconclusive": [{"unit": _UNITS[i].name, "label": "harness error: %r" % (e,), "kind": "harness-error",
